@@ -29,3 +29,22 @@ PROPS = {
         "stubs": COMMON_STUBS,
     },
 }
+
+PROPS["C16"] = {
+    "level": "model_checking",
+    "harness": ["C16_"],
+    "tiers": {
+        "quick": {"timeout": "20s", "maxsteps": 12000000, "bounds": "13 self-recursion skeletons (8 tail, 5 non-tail); depth n symbolic in 0..3, accumulator a symbolic int64; base case at concrete depth 1100 (> MaxFrames) for 4 tail skeletons", "cross": 2},
+        "thorough": {"timeout": "60s", "maxsteps": 12000000, "bounds": "same skeletons; depth n symbolic in 0..6", "cross": 3},
+    },
+    "reach": {"C16_Step": ["step"], "C16_Deep": ["deep"]},
+    "assumptions": [
+        "frame-space constancy at depth 10^6 is claimed by induction: at every tail re-entry observed at the VM's poll, frame index and operand-stack height equal their values at first entry (checked for all arguments within the depth bound) plus the concrete base case at depth 1100; depth 10^6 itself is not executed",
+        "the VM probe is the engine's interception of atomic.LoadInt64(&v.aborting) (once per VM instruction); natively the same probe is not available, so the replay checks results only",
+    ],
+    "outside": "skeletons outside the list; mutual recursion; depth beyond 1100 executed concretely",
+    "stubs": COMMON_STUBS,
+}
+
+# Properties not claimed, with the reason (kept current; see DESIGN.md).
+NOT_APPLICABLE = {}
